@@ -84,3 +84,41 @@ func TestC11BigSizes(t *testing.T) {
 		}
 	})
 }
+
+// TestC11WideFolder: the size shown for a folder in the list is the number of its visible entries, also for a folder
+// with more entries than 16 bits count.
+func TestC11WideFolder(t *testing.T) {
+	ev := evid.New("C11", "TestC11WideFolder")
+	defer ev.Flush()
+	rapid.Check(t, func(rt *rapid.T) {
+		n := rapid.SampledFrom([]int{65535, 65536, 65540}).Draw(rt, "entries")
+		hidden := rapid.IntRange(0, 3).Draw(rt, "hiddenEntries")
+		inWorld(rt, hlsim.Options{Agreement: "a", Accounts: []hlsim.AccountSpec{acct("admin", "Admin", "adminpw", allAccess)}}, func(rt *rapid.T, w *hlsim.World) {
+			dir := filepath.Join(w.FileRoot, "wide")
+			must(os.MkdirAll(dir, 0o755))
+			for i := 0; i < n; i++ {
+				f, err := os.Create(filepath.Join(dir, fmt.Sprintf("f%05d", i)))
+				must(err)
+				f.Close()
+			}
+			for i := 0; i < hidden; i++ {
+				must(os.WriteFile(filepath.Join(dir, fmt.Sprintf(".hidden%d", i)), nil, 0o644))
+			}
+			must(os.MkdirAll(filepath.Join(w.FileRoot, "small"), 0o755))
+			must(os.WriteFile(filepath.Join(w.FileRoot, "small", "one"), nil, 0o644))
+			c := loginAs(rt, w, "10.0.0.1:1", "admin", "adminpw", "admin")
+			ls, r, err := c.ListFiles(nil)
+			if err != nil {
+				rt.Fatalf("file list: %v (%s)", err, replySummary(r))
+			}
+			got := map[string]int64{}
+			for _, l := range ls {
+				got[l.Name] = int64(l.Size)
+			}
+			if got["wide"] != int64(n) || got["small"] != 1 {
+				rt.Fatalf("a folder with %d visible entries (and %d hidden ones) is listed with size %d; the folder with one entry with size %d", n, hidden, got["wide"], got["small"])
+			}
+		})
+		ev.Case(evid.Hash("wide", n, hidden), n > 65535, fmt.Sprintf("entries:%d", n))
+	})
+}
